@@ -165,10 +165,16 @@ def run_item(item, tier):
                 slot = [e for e in o.vk.log if e[0] == "spawn"][0][3]["slot"]
                 if (slot is not None) != (mode == "slot"):
                     viol("modes:wrong-mode", "expected %s mode but COND_SLOT=%r" % (mode, slot), art)
-                with open(os.path.join(outdir, "stdout.log"), "rb") as f:
-                    lo = f.read()
-                with open(os.path.join(outdir, "stderr.log"), "rb") as f:
-                    le = f.read()
+                logs = {}
+                for fname in ("stdout.log", "stderr.log"):
+                    try:
+                        with open(os.path.join(outdir, fname), "rb") as f:
+                            logs[fname] = f.read()
+                    except OSError as ex:
+                        viol("modes:%s:log-missing" % mode, "%s mode: %s of the execution cannot be read (%s)" % (mode, fname, type(ex).__name__), art)
+                if len(logs) != 2:
+                    continue
+                lo, le = logs["stdout.log"], logs["stderr.log"]
                 if lo != want_o or le != want_e:
                     viol("modes:%s:log" % mode, "%s mode: stdout.log has %d bytes (expected %d), stderr.log %d (expected %d); chunks %r / %r"
                          % (mode, len(lo), len(want_o), len(le), len(want_e), [c[:8] for c in so], [c[:8] for c in se]), art)
@@ -277,10 +283,14 @@ def _real(size, res, viol):
             viol("real:run-failed", "real cond run exits %r: %s" % (p.returncode, p.stderr[-300:]), art)
             continue
         d = os.path.join(root, "cond-out", dirs[0])
-        with open(os.path.join(d, "stdout.log"), "rb") as f:
-            lo = f.read()
-        with open(os.path.join(d, "stderr.log"), "rb") as f:
-            le = f.read()
+        try:
+            with open(os.path.join(d, "stdout.log"), "rb") as f:
+                lo = f.read()
+            with open(os.path.join(d, "stderr.log"), "rb") as f:
+                le = f.read()
+        except OSError as ex:
+            viol("real:%s:log-missing" % mode, "real run, %s mode: a log file of the execution cannot be read (%s: %s)" % (mode, type(ex).__name__, ex.filename and os.path.basename(ex.filename)), art)
+            continue
         if lo != want_o or le != want_e:
             viol("real:%s:log" % mode, "real run, %d bytes per stream, %s mode: stdout.log %d bytes, stderr.log %d bytes" % (size, mode, len(lo), len(le)), art)
         if mode == "sequential" and (want_o not in p.stdout or (size and want_e not in p.stderr)):
